@@ -242,11 +242,19 @@ func scripts(rows []Row, dir string, rep *Report) {
 	for _, ph := range placeholders {
 		items = append(items, item{"run" + ph, []string{"placeholder " + ph}}, item{ph + " x " + ph, []string{"placeholder " + ph}})
 	}
-	for _, it := range items {
+	defer os.Unsetenv("MRO_THREADS")
+	for idx, it := range items {
 		r := Row{S: it.cls}
 		s := it.s
 		if s == "" {
 			continue
+		}
+		// mrp's own environment: for every other item it already has the thread-count
+		// variable, with the very value the job is to get
+		if idx%2 == 0 {
+			os.Setenv("MRO_THREADS", "1")
+		} else {
+			os.Unsetenv("MRO_THREADS")
 		}
 		// a directory whose name contains the string (no '/' possible)
 		mdName := "md" + strings.ReplaceAll(s, "/", "_")
@@ -268,7 +276,19 @@ func scripts(rows []Row, dir string, rep *Report) {
 				os.MkdirAll(filepath.Join(mdp, "files"), 0755)
 			}
 			// every other item with the job manager's debug setting (mrp --debug)
-			script = core.VerifJobScriptDebug(len(s)%2 == 1 || strings.ContainsAny(s, "\n\r"), t, self, []string{"probe", s, "second " + s},
+			// the stage's `special` resource request: a name the site has no --jobresources
+			// mapping for (nothing of it belongs in the script), or a mapped one
+			inject := filepath.Join(dir, "INJECTED")
+			os.Remove(inject)
+			special, mappings := "", map[string]string{"highmem": "mem_free=64G"}
+			switch idx % 3 {
+			case 0:
+				special = "gpu\ntouch " + inject + "\n#"
+			case 1:
+				special = "highmem"
+			}
+			script = core.VerifJobScriptSpecial(len(s)%2 == 1 || strings.ContainsAny(s, "\n\r"), t, "mem_free=1G,__RESOURCES__", mappings, special,
+				self, []string{"probe", s, "second " + s},
 				envs, mdp, "ID.x.P.S.fork0", "main", 1, 1)
 			sp := filepath.Join(dir, "job.sh")
 			os.WriteFile(sp, []byte(script), 0755)
@@ -286,6 +306,7 @@ func scripts(rows []Row, dir string, rep *Report) {
 				Env  string   `json:"env"`
 				ZZ   string   `json:"zz"`
 				Cwd  string   `json:"cwd"`
+				Thr  string   `json:"thr"`
 			}
 			if err != nil {
 				bad = "script failed: " + err.Error()
@@ -293,7 +314,7 @@ func scripts(rows []Row, dir string, rep *Report) {
 				bad = "stdout not at the metadata path: " + rerr.Error()
 			} else if json.Unmarshal(out, &got) != nil {
 				bad = "probe output unreadable: " + string(out)
-			} else if unhex(&got.Env, &got.ZZ, &got.Cwd) && unhexs(got.Argv) && false {
+			} else if unhex(&got.Env, &got.ZZ, &got.Cwd, &got.Thr) && unhexs(got.Argv) && false {
 			} else if len(got.Argv) != 2 || got.Argv[0] != s || got.Argv[1] != "second "+s {
 				bad = fmt.Sprintf("argv %q", got.Argv)
 			} else if got.Env != s {
@@ -302,6 +323,12 @@ func scripts(rows []Row, dir string, rep *Report) {
 				bad = fmt.Sprintf("environment value containing a placeholder %q", got.ZZ)
 			} else if style == 0 && got.Cwd != filepath.Join(md, "files") {
 				bad = fmt.Sprintf("working directory %q", got.Cwd)
+			} else if got.Thr != "1" {
+				bad = fmt.Sprintf("thread-count variable MRO_THREADS is %q in the job which reserved 1 thread (mrp's own environment: MRO_THREADS=%q)", got.Thr, os.Getenv("MRO_THREADS"))
+			}
+			if _, err := os.Lstat(inject); err == nil && bad == "" {
+				bad = fmt.Sprintf("the stage's special resource request %q was executed as shell text", special)
+				os.Remove(inject)
 			}
 			if bad != "" {
 				break
@@ -382,7 +409,7 @@ func Probe(args []string) int {
 		hargs[i] = raw(a)
 	}
 	b, _ := json.Marshal(map[string]interface{}{"argv": hargs, "env": raw(os.Getenv("VERIF_PROBE_ENV")),
-		"zz": raw(os.Getenv("ZZ")), "cwd": raw(cwd)})
+		"zz": raw(os.Getenv("ZZ")), "cwd": raw(cwd), "thr": raw(os.Getenv("MRO_THREADS"))})
 	os.Stdout.Write(b)
 	return 0
 }
